@@ -58,10 +58,15 @@ def run_shard(prop, tier, seed, shard, nshards, out, replay=None):
     loopmon = state.get('loops') if isinstance(state, dict) else None
     if loopmon is not None:
         loopmon.start()
-    rng = np.random.default_rng([seed, int(prop[1:]), shard])
-    if replay is not None:
+    if shard < 0 or (replay is not None and isinstance(replay.get('case'), dict) and replay['case'].get('kind') == 'repo-test'):
+        # the repository's own tests as an additional workload under this property's monitors
+        node = replay['case'].get('nodeid') if replay is not None else None
+        run_repo_tests(ctx, boot, node)
+        cases = []
+    elif replay is not None:
         cases = [dec(replay['case'])]
     else:
+        rng = np.random.default_rng([seed, int(prop[1:]), shard])
         cases = mod.cases(rng, tier, shard, nshards)
     budget = float(os.environ.get('KNEEMON_SHARD_BUDGET_S', '0') or 0)
     for i, case in enumerate(cases):
@@ -91,6 +96,39 @@ def run_shard(prop, tier, seed, shard, nshards, out, replay=None):
         loopmon.stop()
     with open(out, 'w') as f:
         json.dump(d, f)
+
+
+def run_repo_tests(ctx, boot, nodeid=None):
+    """Run /repo/test in-process with the property's monitors installed (verdicts flow into ctx)."""
+    import pytest
+    from .ctx import HarnessError, LoopBoundExceeded
+    testdir = os.path.join(boot.REPO, 'test')
+    if not os.path.isdir(testdir):
+        testdir = '/repo/test'
+    os.chdir(os.path.dirname(testdir))
+    sys.path.insert(0, os.path.dirname(testdir))
+
+    class Plugin:
+        def pytest_runtest_setup(self, item):
+            ctx.begin_case(ctx.cases, {'kind': 'repo-test', 'nodeid': item.nodeid})
+
+        def pytest_runtest_makereport(self, item, call):
+            if call.when != 'call':
+                return
+            if call.excinfo is None:
+                ctx.h('repo_tests', 'passed')
+                return
+            exc = call.excinfo.value
+            if isinstance(exc, LoopBoundExceeded):
+                ctx.violation('loop', f'loop:{exc.loopkey}', f'{exc} (in repository test {item.nodeid})')
+            elif isinstance(exc, HarnessError):
+                ctx.harness_error('repo-test ' + item.nodeid, exc)
+            else:
+                ctx.h('repo_tests', 'failed')
+                ctx.h('repo_tests_failed', item.nodeid)
+
+    args = ['-q', '-p', 'no:cacheprovider', '--no-header', '-W', 'ignore', nodeid or testdir]
+    pytest.main(args, plugins=[Plugin()])
 
 
 # ----------------------------------------------------------------- parent side
@@ -271,6 +309,11 @@ def main(argv=None):
             cmd += ['--replay', a.replay]
         log = open(os.path.join(tmp, f'shard{s}.log'), 'w')
         procs.append((s, out, log, subprocess.Popen(cmd, env=env, cwd=VERIF, stdout=log, stderr=subprocess.STDOUT)))
+    if not a.replay and meta.get('repo_tests', True):
+        out = os.path.join(tmp, 'shard-repotests.json')
+        cmd = [PY, '-m', 'kneemon.runner', prop, tier, '--_shard', '-1', str(nshards), out]
+        log = open(os.path.join(tmp, 'shard-repotests.log'), 'w')
+        procs.append((-1, out, log, subprocess.Popen(cmd, env=env, cwd=VERIF, stdout=log, stderr=subprocess.STDOUT)))
     results, timed_out, crashed = [], 0, 0
     deadline = t0 + timeout
     for s, out, log, p in procs:
